@@ -85,7 +85,7 @@ def run_case(ctx, case):
     # the C01 known finding (a graph input/initializer given a producer) is avoided, otherwise
     # its cascades (re-registering an initializer that has a producer fails) would be filed here
     avoid = {"owned_node_outputs"}
-    gen = Gen(rng, w, hostile, avoid=avoid)
+    gen = Gen(rng, w, hostile, avoid=avoid, collaborators=(case % 3 == 0))
     mon = SnapshotMonitor(ctx)
     ops, results = [], []
     raised_kinds = []
